@@ -353,7 +353,7 @@ def run(replay=None):
         if ok_d:
             if md == hd:
                 stats["dag_exact"] += 1
-            elif md and md.startswith("D ") and exprlib.dags_equal_mod_sharing(hd[2:], md[2:]):
+            elif md and md.startswith("D ") and exprlib.dags_equal_mod_sharing(hd[2:], md[2:], ulps=64):
                 stats["dag_mod_sharing"] += 1
             else:
                 corr_bad.append((g, hd, md))
